@@ -47,7 +47,7 @@ func genC04(tier string, seed int64) (*Family, error) {
 	fam.Outside = []string{"rule sets larger than the bound", "the empty rule set (rejected by design)"}
 
 	var b strings.Builder
-	b.WriteString("package " + pkg + "\n\nimport (\n\t\"github.com/bilibili/gengine/engine\"\n\t\"github.com/bilibili/gengine/zz_verif/vnd\"\n)\n\n")
+	b.WriteString("package " + pkg + "\n\nimport (\n\t\"strconv\"\n\n\t\"github.com/bilibili/gengine/engine\"\n\t\"github.com/bilibili/gengine/zz_verif/vnd\"\n)\n\n")
 	add := func(name, stratum, desc, body string, n int) {
 		fmt.Fprintf(&b, "\n// %s: %s\nfunc %s() {\n\tn := %d\n\ts := symSal(n)\n\tf := symFlags(\"f\", n)\n\tb := vnd.Bool(\"b\")\n\trb := build(n, s, f)\n\teng := engine.NewGengine()\n%s}\n", name, desc, name, n, body)
 		fam.Instances = append(fam.Instances, Instance{Func: name, Stratum: stratum, Desc: desc, Expect: []string{"executed"}})
@@ -61,6 +61,12 @@ func genC04(tier string, seed int64) (*Family, error) {
 	vnd.Reach("executed")
 	checkSorted(vnd.Trace(), n, allTrue(n), s, f, b, err)
 `, n)
+	}
+	// the failure comes from a failing return expression
+	for n := 1; n <= maxN && n <= 3; n++ {
+		name := fmt.Sprintf("H_ExecuteRetFail_%d", n)
+		fmt.Fprintf(&b, "\n// sort model, a rule fails in its top-level return expression, %d rules\nfunc %s() {\n\tn := %d\n\ts := symSal(n)\n\tz := symVals(\"z\", n)\n\tf := make([]bool, n)\n\tfor i := range f {\n\t\tf[i] = z[i] == 0\n\t}\n\tb := vnd.Bool(\"b\")\n\tdc := newDC(nil)\n\taddVals(dc, \"z\", z)\n\trb := buildText(dc, rulesTextRetFail(n, s))\n\teng := engine.NewGengine()\n\terr := eng.Execute(rb, b)\n\tvnd.Reach(\"executed\")\n\tcheckSortedStarts(vnd.Trace(), n, allTrue(n), s, nil, f, b, err)\n\tres, _ := eng.GetRulesResultMap()\n\tfor i := 0; i < n; i++ {\n\t\tif vnd.Count(sname(i)) == 1 {\n\t\t\t_, has := res[\"r\"+strconv.Itoa(i)]\n\t\t\tvnd.Assert(vnd.Iff(has, !f[i]), \"a failing return expression yields no value, a successful one does\")\n\t\t}\n\t}\n}\n", n, name, n)
+		fam.Instances = append(fam.Instances, Instance{Func: name, Stratum: "Execute:return-fault", Desc: fmt.Sprintf("sort model, failing return expression, %d rules", n), Expect: []string{"executed"}})
 	}
 	// sorted selected variants: full list in reverse order and a sub-list
 	for n := 2; n <= maxN; n++ {
